@@ -11,17 +11,40 @@
 (* demands nothing - the trace specification must not judge them (checked  *)
 (* by counting).  Larger counts are sampled by the seeded recorder         *)
 (* (vh surf-random).                                                       *)
+(*                                                                         *)
+(* HOW the constructors are called is part of the case too:                *)
+(*  hist, ord   Every tuple belongs to a HISTORY: the tuples with the same *)
+(*     `hist` are constructed one after the other (in the order of `ord`)  *)
+(*     by one caller that keeps every mesh and looks at each of them again *)
+(*     after the last call.  Histories mix all six constructors, sizes and *)
+(*     resolutions in a Seed-dependent pseudo-random order (growing and    *)
+(*     shrinking), NHist of them; a doubling chain is a history of its     *)
+(*     own, in doubling order.                                             *)
+(*  conc        NConc extra GROUPS of eight tuples whose constructors are  *)
+(*     called at the same time from eight goroutines: one group per        *)
+(*     constructor (same code, different parameters), the others mixed.    *)
 (***************************************************************************)
 EXTENDS Solids, TLC, Json
 
-CONSTANTS MaxRows, MaxCols, MaxSides, DimSet, UvSet, Chain, ChainDims
+CONSTANTS MaxRows, MaxCols, MaxSides, DimSet, UvSet, Chain, ChainDims, NHist, NConc, Seed
 
 VARIABLE c
 
 Mk(prim, rows, cols, sides, d, uv, chain) ==
     LET base == [kind |-> "prim", id |-> 0, prim |-> prim, rows |-> rows, cols |-> cols, sides |-> sides,
-                 d |-> d, uv |-> uv, chain |-> chain, scale |-> 1]
+                 d |-> d, uv |-> uv, chain |-> chain, scale |-> 1, hist |-> 0, ord |-> 0, conc |-> 0]
     IN [base EXCEPT !.scale = ScaleOf(base)]
+
+KindSeq == <<"uvsphere", "uvsphere_unwelded", "cube_welded", "cube_quads", "cylinder", "hemisphere">>
+PrimIx(p) == CHOOSE i \in DOMAIN KindSeq : KindSeq[i] = p
+\* pseudo-random but fixed function of the tuple (operands stay below 2^31)
+Code(t) == (PrimIx(t.prim) + 7 * t.rows + 31 * t.cols + 131 * t.sides + 17 * t.d[1] + 257 * t.d[2]
+            + 1031 * t.d[3] + 5 * t.uv) % 100003
+InHistory(t) ==
+    IF t.chain > 0
+    THEN [t EXCEPT !.hist = NHist + 100 * PrimIx(t.prim) + t.d[1], !.ord = t.chain]
+    ELSE [t EXCEPT !.hist = (((Code(t) * 7919 + (Seed % 1000) * 104729) % 32749) % NHist) + 1,
+                   !.ord = (Code(t) * 15485 + (Seed % 1000) * 31) % 32749]
 
 RoundCases ==
     {Mk(p, r, k, 0, <<d, 0, 0>>, 0, 0) : p \in Round, r \in 2..MaxRows, k \in 3..MaxCols, d \in DimSet}
@@ -36,12 +59,30 @@ ChainCases ==
     {Mk(p, Chain[i], Chain[i], 0, <<d, 0, 0>>, 0, i) : p \in {"uvsphere", "hemisphere"}, i \in DOMAIN Chain, d \in ChainDims}
     \cup {Mk("cylinder", 0, 0, Chain[i], <<d, d, 0>>, 0, i) : i \in DOMAIN Chain, d \in ChainDims}
 
-All == RoundCases \cup CubeCases \cup CylinderCases \cup EdgeCases \cup ChainCases
+\* groups constructed concurrently: member j of group g
+DimSeq == <<8, 16, 24, 48>>
+ConcMember(g, j) ==
+    LET p == IF g <= Len(KindSeq) THEN KindSeq[g] ELSE KindSeq[((j + g) % Len(KindSeq)) + 1]
+        rows == 10 + 2 * ((3 * j + g) % 8)
+        cols == 11 + 2 * ((5 * j + 2 * g) % 8) + (j % 2)
+        d1 == DimSeq[(j % 4) + 1]
+        d2 == DimSeq[((j + g) % 4) + 1]
+        d3 == DimSeq[((j + 2 * g) % 4) + 1]
+        t == CASE p \in Round -> Mk(p, rows, cols, 0, <<d1, 0, 0>>, 0, 0)
+               [] p \in Cubes -> Mk(p, 0, 0, 0, <<d1, d2, d3>>, (j + g) % 6, 0)
+               [] OTHER -> Mk(p, 0, 0, 9 + ((7 * j + g) % 16), <<d1, d2, 0>>, (j + g) % 6, 0)
+    IN [t EXCEPT !.conc = g, !.ord = j]
+ConcCases == {ConcMember(g, j) : g \in 1..NConc, j \in 0..7}
+
+All == {InHistory(t) : t \in RoundCases \cup CubeCases \cup CylinderCases \cup EdgeCases \cup ChainCases}
+       \cup ConcCases
 
 Init == c \in All
 Spec == Init /\ [][FALSE]_c
 
 \* generator sanity: the scale keeps every tuple inside the projection's exact range
-GenOK == ScaleOK(c) /\ (c.chain = 0 \/ Admissible(c))
+GenOK == /\ ScaleOK(c) /\ (c.chain = 0 \/ Admissible(c))
+         /\ (c.conc > 0) # (c.hist > 0)
+         /\ c.conc > 0 => Admissible(c)
 Emit == PrintT(ToJson([case |-> c, admissible |-> Admissible(c)]))
 =============================================================================
